@@ -110,8 +110,46 @@ def check_case(schema, tname, val, fault=None):
         tu.cleanup()
 
 
+def fuzz_campaign(widx, seed, stats, runs=600000, max_time=150):
+    """libFuzzer (clang++ -fsanitize=fuzzer,address,undefined) with the C07 oracle inside the target."""
+    from vlib.refwire import RefWire
+    opts = CAMPAIGN.gen_opts()
+    opts.max_decls = 4
+    cases_ = cppcamp.collect_cases(gen.schema_with_values(opts, values_per_type=1), seed + 77, 4)
+    merged, vectors = cpph.merge_cases(cases_)
+    try:
+        tu = cpph.FuzzTU(merged)
+    except (cpph.BuildFailed, Exception) as ex:
+        stats.notes['fuzz_build_failed'] += 1
+        return
+    try:
+        rw = RefWire(merged)
+        comps = [c.name for c in merged.composites()]
+        seeds = []
+        if widx % 2 == 0:      # even workers start from canonical encodings, odd workers from an empty corpus
+            for _, tn, v in vectors:
+                for ei, e in enumerate('<>'):
+                    seeds.append(bytes([comps.index(tn), ei]) + rw.encode(tn, v, e)[0])
+        ok, info = tu.run(seed % 100000 + widx, runs, seeds, max_time=max_time)
+        stats.notes['libfuzzer_execs'] += info.get('execs', 0)
+        stats.notes['libfuzzer_campaigns'] += 1
+        if not ok:
+            data = info.get('artifact', b'')
+            tname = comps[data[0] % len(comps)] if data else comps[0]
+            e = '<>='[data[1] % 3] if len(data) > 1 else '<'
+            payload = common.case_payload(merged, tname, None, {'input': data[2:].hex(), 'endianness': e,
+                                                                'summary': info.get('summary'),
+                                                                'stderr': info.get('stderr', '')[-1500:]})
+            stats.violations.append({'what': 'libFuzzer: C++ decode of arbitrary bytes failed: %s' % info.get('summary'),
+                                     'case': payload})
+    finally:
+        tu.cleanup()
+
+
 def worker(widx, seed, tier, stats):
     CAMPAIGN.worker(widx, seed, tier, stats, {'quick': 2, 'thorough': 30}[tier])
+    if tier == 'thorough' and not stats.violations:
+        fuzz_campaign(widx, seed, stats)
 
 
 def run(tier, seed):
